@@ -205,8 +205,8 @@ PROPS["C12"] = dict(
     trusted=TRK_TRUST, assumptions=["no storage failures"],
 )
 PROPS["C13"] = dict(
-    lean_targets=["Chihaya.Props.C13"],
-    props_files=["Chihaya/Props/C13.lean"],
+    lean_targets=["Chihaya.Props.C13", "Chihaya.Props.C13Store"],
+    props_files=["Chihaya/Props/C13.lean", "Chihaya/Props/C13Store.lean"],
     streams=[dict(name="C13", quick=8000, thorough=400000), dict(name="C07", quick=6000, thorough=100000), dict(name="C06", quick=6000, thorough=100000)],
     rule="cases: malformed and well-formed requests interleaved (raw/truncated/rendered URIs, odd remote addresses; truncated, bit-flipped, option-laden and garbage "
          "datagrams with valid connection IDs) through both real frontends, the real Logic with hook chains and a real store holding a non-trivial state; every call "
